@@ -110,14 +110,14 @@ impl MetricSink for ScriptedSink {
     }
 }
 
-fn err_parts(e: &MetricError) -> (String, Option<ErrId>, String) {
+pub(crate) fn err_parts(e: &MetricError) -> (String, Option<ErrId>, String) {
     use std::error::Error;
     let src = e.source().and_then(|s| s.downcast_ref::<io::Error>()).map(ErrId::of);
     (format!("{:?}", e.kind()), src, e.to_string())
 }
 
 #[derive(Clone, Debug)]
-enum CallOut {
+pub(crate) enum CallOut {
     Ok(String),
     Err(String, Option<ErrId>, String),
     Quiet,
@@ -246,7 +246,7 @@ fn plain<T: Metric>(r: Result<T, MetricError>) -> CallOut {
 }
 
 /// One API call. The entry table enumerates the `MetricClient` supertrait list.
-fn do_call(client: &StatsdClient, key: &str, c: &SfCall) -> CallOut {
+pub(crate) fn do_call(client: &StatsdClient, key: &str, c: &SfCall) -> CallOut {
     macro_rules! entry {
         ($plain:ident, $tagged:ident, $v:expr) => {{
             if c.form == 0 {
@@ -304,10 +304,45 @@ fn do_call(client: &StatsdClient, key: &str, c: &SfCall) -> CallOut {
 #[allow(dead_code)]
 fn _assert_entry_points_cover_metric_client<C: MetricClient>(_c: &C) {}
 
-fn hostile_string(rng: &mut Rng, max: usize) -> String {
+pub(crate) fn hostile_string(rng: &mut Rng, max: usize) -> String {
     let alphabet = ["a", "b", ".", "_", "é", "√", ":", "|", "#", ",", "@", "\n", " ", "0", ""];
     let n = rng.usize_below(max + 1);
     (0..n).map(|_| *rng.pick(&alphabet)).collect()
+}
+
+pub fn gen_call(prog: &mut Rng) -> SfCall {
+    let entry = prog.below(N_ENTRIES as u64) as u8;
+    let dur = match prog.weighted(&[40, 15, 20, 10, 15]) {
+        0 => DurSpec::Small(prog.next_u64()),
+        1 => DurSpec::MaxFitting,
+        2 => DurSpec::JustOver,
+        3 => DurSpec::DurationMax,
+        _ => DurSpec::MaxFittingPlusSubUnit,
+    };
+    let num = match prog.below(6) {
+        0 => 0,
+        1 => u64::MAX,
+        2 => i64::MAX as u64 + 1,
+        3 => 1,
+        _ => prog.next_u64(),
+    };
+    let list_len = if prog.chance(1, 50) { 3000 } else { prog.usize_below(5) };
+    let mut tags = Vec::new();
+    for _ in 0..prog.usize_below(4) {
+        tags.push((if prog.chance(2, 3) { Some(hostile_string(prog, 5)) } else { None }, hostile_string(prog, 5)));
+    }
+    SfCall {
+        entry,
+        form: prog.below(3) as u8,
+        num,
+        dur,
+        list_len,
+        list_bad_at: prog.usize_below(8),
+        tags,
+        rate: if prog.chance(1, 4) { Some(prog.below(2000) as u32) } else { None },
+        timestamp: if prog.chance(1, 5) { Some(prog.next_u64()) } else { None },
+        container: if prog.chance(1, 6) { Some(hostile_string(prog, 6)) } else { None },
+    }
 }
 
 impl Engine for E1 {
@@ -356,38 +391,7 @@ impl Engine for E1 {
         let n = 1 + prog.usize_below(if tier == Tier::Thorough { 40 } else { 24 });
         let mut calls = Vec::new();
         for _ in 0..n {
-            let entry = prog.below(N_ENTRIES as u64) as u8;
-            let dur = match prog.weighted(&[40, 15, 20, 10, 15]) {
-                0 => DurSpec::Small(prog.next_u64()),
-                1 => DurSpec::MaxFitting,
-                2 => DurSpec::JustOver,
-                3 => DurSpec::DurationMax,
-                _ => DurSpec::MaxFittingPlusSubUnit,
-            };
-            let num = match prog.below(6) {
-                0 => 0,
-                1 => u64::MAX,
-                2 => i64::MAX as u64 + 1,
-                3 => 1,
-                _ => prog.next_u64(),
-            };
-            let list_len = if prog.chance(1, 50) { 3000 } else { prog.usize_below(5) };
-            let mut tags = Vec::new();
-            for _ in 0..prog.usize_below(4) {
-                tags.push((if prog.chance(2, 3) { Some(hostile_string(&mut prog, 5)) } else { None }, hostile_string(&mut prog, 5)));
-            }
-            calls.push(SfCall {
-                entry,
-                form: prog.below(3) as u8,
-                num,
-                dur,
-                list_len,
-                list_bad_at: prog.usize_below(8),
-                tags,
-                rate: if prog.chance(1, 4) { Some(prog.below(2000) as u32) } else { None },
-                timestamp: if prog.chance(1, 5) { Some(prog.next_u64()) } else { None },
-                container: if prog.chance(1, 6) { Some(hostile_string(&mut prog, 6)) } else { None },
-            });
+            calls.push(gen_call(&mut prog));
         }
         let rate = *flt.pick(&[0u64, 10, 30, 60, 100]);
         let plan = (0..2 * n + 2)
@@ -534,7 +538,16 @@ fn run(case: &SfCase, out: &mut Outcome, want_trace: bool) {
     let mut entries_seen = std::collections::BTreeSet::new();
     let mut prev_failed = false;
     for (ci, c) in case.calls.iter().enumerate() {
-        let key = format!("k{ci}");
+        // mostly short keys; sometimes long ones with multi-byte characters at varying offsets
+        let key = if c.num % 11 == 3 {
+            let mut k = format!("k{ci}.");
+            for i in 0..(40 + (c.num % 200) as usize) {
+                k.push(if (i + ci) % 5 == 0 { '√' } else if (i + ci) % 3 == 0 { 'é' } else { 'x' });
+            }
+            k
+        } else {
+            format!("k{ci}")
+        };
         let (e0, h0) = {
             let l = logs.lock().unwrap();
             (l.emits.len(), l.handler.len())
